@@ -73,16 +73,25 @@ def run(ctx):
     if strict:
         probs.append("the datagram is tested with %s: a datagram of exactly MTU octets is no longer passed through unchanged" % strict[0])
     DONT = ("agg", "elvis_core::protocols::ipv4::fragmentation::Fragments::DontFragment", (("pair", H, B),))
+    undecided = [c for c in S.atoms(leaves[(True, True)], lambda x: x[0] == "ite")]
+    if undecided:
+        probs.append("whether a datagram is passed through is decided by %s instead of by total_length <= mtu: a datagram that fits the MTU can be fragmented or discarded" % S.term_str(undecided[0][1])[:200])
     for may in (True, False):
         l = leaves[(True, may)]
-        if l != DONT:
+        if l != DONT and not undecided:
             probs.append("a datagram that fits the MTU yields %s instead of DontFragment with the unmodified (header, body)" % S.term_str(l)[:160])
     l = leaves[(False, False)]
-    if not (l[0] == "variant" and l[2] == "Discard"):
+    if undecided:
+        pass
+    elif not (l[0] == "variant" and l[2] == "Discard"):
         probs.append("a datagram that does not fit and has DF set yields %s instead of Discard" % S.term_str(l)[:160])
     l = leaves[(False, True)]
     frag_ok = l[0] == "agg" and l[1].endswith("Fragments::Fragmented") and len(l[2]) == 1
-    if not frag_ok:
+    if undecided:
+        fl = [x for x in S.atoms(l, lambda y: y[0] == "agg" and y[1].endswith("Fragments::Fragmented"))]
+        if fl:
+            l, frag_ok = fl[0], True
+    if not frag_ok and not undecided:
         probs.append("a datagram that does not fit and may be fragmented yields %s instead of Fragmented" % S.term_str(l)[:160])
     (ctx.bad if probs else ctx.ok)("F-DECIDE", "F-DECIDE:fragment", fr.span, "; ".join(probs) if probs else
         "(fits) -> DontFragment(unmodified); (does not fit, DF) -> Discard; (does not fit, may fragment) -> Fragmented")
